@@ -329,3 +329,45 @@ _ADDED = {
 }
 for _k, _t in _ADDED.items():
     CLAIMED[_k]["text"] += _t
+
+# ---- coverage added after the third round of independently written changes (DESIGN 10.8, 12) --------------------
+_STATELESS = (" The parser is also run by 2-3 real threads at once on inputs of their own under the controlled scheduler and then "
+              "by the main thread alone: an operation has one outcome whoever performs it (Stateless.tla, StatelessMC.tla refutes "
+              "a shared scratch area), with a ThreadSanitizer pass over the same scenarios.")
+_ADDED3 = {
+    "C01": " BigBuf.tla covers the growing / copying calls on buffers of kilobytes to tens of megabytes (contents as maximal "
+           "runs <<value, count>>, sizes 4 KiB .. 12 MiB around powers of two, appends far beyond the capacity, self-append "
+           "across a reallocation): same contract, model-checked over all call sequences in units, ~120 executions per quick run.",
+    "C03": " A hand-over family lets main fill whole pages partly in worker-owned slots and the workers release the last blocks of "
+           "those retired pages while others use the class; pages the library gave back are kept poisoned (a second give-back "
+           "ends the execution).",
+    "C04": _STATELESS,
+    "C05": " Every sequence also runs behind a UTF-8 byte-order mark and the UTF-16/32 marks; 2-3 threads encode / decode "
+           "buffers of their own at once on both CPU paths (CodecVsTrace.tla) with a ThreadSanitizer data-race scan.",
+    "C06": " Every family runs under three comparator shapes (-1/0/+1, 'a > b' as the library's task scheduler passes, a scaled "
+           "difference); a re-sift family removes handles whose element's replacement has to travel, buries it under pushes "
+           "and drains the queue completely.",
+    "C08": " Clients sleep while tasks are outstanding, hand task objects over again after their function ran (no second "
+           "aws_task_init) and park tasks at UINT64_MAX / now + 2^63; ThreadSchedAbs!Idle demands that at a quiescent moment "
+           "(every thread blocked, virtual clock never advanced under a runnable thread) no task whose time has come is still "
+           "waiting.",
+    "C10": " Truncated containers declare counts up to 2^64-1; one decoder skips 600-1100 (thorough 4200) small items of one "
+           "shape." + _STATELESS,
+    "C11": " Complete near-miss key families (non-letter bytes differing only in bit 5, a key and its prefix, last-byte and "
+           "high-bit variants) are drawn into objects and API programs." + _STATELESS,
+    "C12": _STATELESS,
+    "C13": _STATELESS,
+    "C14": " Each line's timestamp text must have the shape of the date format its logger / formatter call was configured with "
+           "(LogAbs!TsShape; two formats alternate on one thread); the recording writer can be told to fail every n-th write.",
+    "C15": " Requests of 4 GiB, 2^63 and SIZE_MAX in both forms, and rings of gigabytes (sizes, requests and offsets in units of "
+           "256 MiB / 1 GiB over reserved address space) whose head and tail are more than 2^31 / 2^32 bytes apart.",
+    "C16": " One operand a compile-time constant: 8 constants x both sides, one out-of-line function per variant / operation / "
+           "width / constant / side, in the sanitizer and the release-configuration build (found F28).",
+    "C17": " Operations performed 300 stack frames further down with frames_per_stack 126..1000 (maximum-depth traces), and blocks "
+           "and totals beyond 4 GiB (sizes in units of 1 GiB / 256 MiB, the traced allocator only reserves address space).",
+    "C20": " aws_thread_set_managed_join_timeout_ns: a bounded join-all succeeds only when everything is joined (by about its "
+           "deadline) and gives up only with a bound in force and never before it has elapsed.",
+}
+for _k, _t in _ADDED3.items():
+    CLAIMED[_k]["text"] += _t
+
